@@ -66,6 +66,9 @@ type Cfg struct {
 	// the interface goes down and up this many times DURING the outbound flood (sessions are re-established by a
 	// responder loop); outbound lanes: at most once, processed
 	Cycles int `json:"down_up_cycles"`
+	// dedicated run (hook VerifPrepareRacingBatch): a batch lands behind the stop sentinel of Peer.Stop while a
+	// (gated) encryption worker holds it; then the peer is restarted
+	RestartRace bool `json:"restart_race"`
 }
 
 type OLane struct {
@@ -141,7 +144,7 @@ func runCase(c Cfg) Case {
 	if c.Flushers > 0 {
 		cs.Mode = "multi"
 	}
-	if c.Cycles > 0 {
+	if c.Cycles > 0 || c.RestartRace {
 		cs.Mode = "atmost"
 	}
 	fail := func(msg string) Case {
@@ -200,6 +203,75 @@ func runCase(c Cfg) Case {
 		cs.In[i].Wr = [][2]uint64{}
 	}
 
+	if c.RestartRace {
+		release := make(chan struct{})
+		entered := make(chan struct{}, 16)
+		gate := func() {
+			select {
+			case entered <- struct{}{}:
+			default:
+			}
+			<-release
+		}
+		var pkts [][]byte
+		for k := 1; k <= 4; k++ {
+			pkts = append(pkts, stress.Packet([4]byte{10, 9, 9, 9}, [4]byte{10, 0, 0, 2}, 200+k, 0, uint64(k)))
+		}
+		cs.Out[0].N = 4
+		h := w.Dev.VerifPrepareRacingBatch(cosim.NoisePK(peers[0].Pub), pkts, gate)
+		if h == nil {
+			return fail("no current keypair for the racing batch")
+		}
+		if err := w.Dev.Down(); err != nil {
+			return fail("down: " + err.Error())
+		}
+		h.Enqueue() // the flusher that passed the isRunning check before Stop swapped it
+		select {
+		case <-entered:
+		case <-time.After(2 * time.Second):
+			return fail("no encryption worker took the left-over batch")
+		}
+		upDone := make(chan error, 1)
+		go func() { upDone <- w.Dev.Up() }()
+		early := false
+		select {
+		case <-upDone:
+			early = true
+		case <-time.After(300 * time.Millisecond):
+		}
+		info["restart_returned_while_worker_held_batch"] = early
+		if early {
+			cs.Out[0].Bad++ // the batch was released (buffers back in the pools) before its processing completed
+		}
+		close(release)
+		if !early {
+			select {
+			case <-upDone:
+			case <-time.After(5 * time.Second):
+				return fail("Up did not return after the worker finished")
+			}
+		}
+		time.Sleep(50 * time.Millisecond) // the late worker touches the recycled elements now
+		// the pipeline must still work for the other peer: new session, then a burst
+		y := len(peers) - 1
+		w.Dev.VerifShiftHandshakeTimes(cosim.NoisePK(peers[y].Pub), 6*time.Second)
+		out := w.TunIn(stress.Packet([4]byte{10, 9, 9, 9}, [4]byte{10, 0, byte(y), 2}, 40, uint64(y), 0))
+		init := cosim.FindInitiation(out.Sent)
+		if init == nil {
+			return fail("no initiation after the restart")
+		}
+		if _, _, err := w.AnswerInitiation(peers[y], init.Data, peers[y].Addr); err != nil {
+			return fail(err.Error())
+		}
+		w.Take()
+		var burst [][]byte
+		for k := 1; k <= 60; k++ {
+			burst = append(burst, stress.Packet([4]byte{10, 9, 9, 9}, [4]byte{10, 0, byte(y), 2}, 100+k*7, uint64(y), uint64(k)))
+		}
+		cs.Out[y].N += 60
+		w.Tun.Inject(burst...)
+		w.Settle()
+	}
 	// traffic plans (built before the perturbation starts)
 	type item struct {
 		peer int
@@ -833,10 +905,14 @@ func main() {
 			recvDone <- isolated(Cfg{Seed: *seed + 4242, Peers: 2, BindBatch: 8, TunBatch: 8, Procs: runtime.NumCPU(), NIn: 78, ChunkMax: 8,
 				Forged: 10, RecvErrs: 12})
 		}()
+		raceDone := make(chan Case, 1)
+		go func() {
+			raceDone <- isolated(Cfg{Seed: *seed + 4343, Peers: 2, BindBatch: 8, TunBatch: 8, Procs: runtime.NumCPU(), ChunkMax: 8, RestartRace: true})
+		}()
 		for i := 0; i < *n; i++ {
 			cases = append(cases, isolated(genCfg(r, i, *pkts)))
 		}
-		cases = append(cases, <-recvDone)
+		cases = append(cases, <-recvDone, <-raceDone)
 	}
 	if *shards > len(cases) {
 		*shards = len(cases)
